@@ -97,15 +97,24 @@ Section Spec.
   Definition consistent (L : list (Z * D)) : Prop :=
     forall i d d', In (i, d) L -> In (i, d') L -> d = d'.
 
+  (* the proof has the shape of a proof for a tree of height h: height supported, indices in range,
+     exactly as many supplied digests as the minimal set has nodes, repeated leafs agree *)
+  Definition structure_ok (p : iproof D) : Prop :=
+    let h := ip_height p in
+    let n := 2 ^ h in
+    let idxs := map fst (ip_leafs p) in
+    h <= 31 /\ (forall i, In i idxs -> i < n) /\
+    length (ip_auth p) = length (minimal_list n idxs) /\
+    consistent (ip_leafs p).
+
   Definition verify_spec (p : iproof D) (root : D) : Prop :=
     is_trivial D p = true \/
-    (let h := ip_height p in
-     let n := 2 ^ h in
-     let idxs := map fst (ip_leafs p) in
-     h <= 31 /\ (forall i, In i idxs -> i < n) /\
-     length (ip_auth p) = length (minimal_list n idxs) /\
-     consistent (ip_leafs p) /\
-     val n (ip_leafs p) (ip_auth p) (Z.to_nat h) 1 = root).
+    (structure_ok p /\
+     val (2 ^ ip_height p) (ip_leafs p) (ip_auth p) (Z.to_nat (ip_height p)) 1 = root).
+
+  (* inputs are usize values *)
+  Definition wf_proof (p : iproof D) : Prop :=
+    0 <= ip_height p /\ forall i, In i (map fst (ip_leafs p)) -> 0 <= i.
 
   (* the authentication path of leaf i in the partial tree: siblings from the leaf level upwards *)
   Fixpoint sibling_path_in (M : list Z) (n : Z) (L : list (Z * D)) (A : list D) (h : nat) (x : Z) (lvl : nat) : list D :=
